@@ -339,3 +339,50 @@ pub fn t_scoped_write_panics<C: RawLock + RawLockD + Lockable + Kind<L>, L: Kill
 	kani::cover!(class == 2 || class == 3 || (w().faults == 1 && calls.get() == 0), "fault_before_closure");
 	kani::cover!(r == Ok(17), "clean");
 }
+
+/// user code panics inside utils::scoped_read / scoped_try_read / scoped_try_write of a collection (no raw faults)
+pub fn t_scoped_shared_user_panics<C: RawLock + RawLockD + crate::lockable::Sharable + Kind<L>, L: Killed<N>, const N: usize>(c: &C, lend: bool) {
+	let l = c.leaves();
+	let st = l.states();
+	l.set_any_others();
+	let pre = snaps(&st);
+	w().fault_class = 3;
+	let user_panics: bool = kani::any();
+	let which: u8 = kani::any();
+	kani::assume(which < 3);
+	let calls = core::cell::Cell::new(0u8);
+	let mut key = ThreadKey::get().unwrap();
+	let out = |p: bool| -> VR<u8> { if p { Err(VPanic::User) } else { Ok(17) } };
+	// Ok(Some(v)): closure ran; Ok(None): try failed, closure not run
+	let r: VR<Option<u8>> = match which {
+		0 => {
+			let body = |_d: <C as crate::lockable::Sharable>::DataRef<'_>| -> VR<u8> { calls.set(calls.get() + 1); assert!(all_mine_s(&st, &L::is_mutex()), "C02_closure_runs_only_while_every_leaf_is_held"); out(user_panics) };
+			if lend { x::scoped_read(c, &mut key, body).map(Some) } else { x::scoped_read(c, key, body).map(Some) }
+		}
+		1 => {
+			let body = |_d: <C as crate::lockable::Sharable>::DataRef<'_>| -> VR<u8> { calls.set(calls.get() + 1); assert!(all_mine_s(&st, &L::is_mutex()), "C02_closure_runs_only_while_every_leaf_is_held"); out(user_panics) };
+			if lend { x::scoped_try_read(c, &mut key, body).map(|r| r.ok()) } else { x::scoped_try_read(c, key, body).map(|r| r.ok()) }
+		}
+		_ => {
+			let body = |_d: <C as Lockable>::DataMut<'_>| -> VR<u8> { calls.set(calls.get() + 1); assert!(all_mine_x(&st), "C02_closure_runs_only_while_every_leaf_is_held"); out(user_panics) };
+			if lend { x::scoped_try_write(c, &mut key, body).map(|r| r.ok()) } else { x::scoped_try_write(c, key, body).map(|r| r.ok()) }
+		}
+	};
+	let ran = calls.get() == 1;
+	assert!(calls.get() <= 1, "C04_scoped_closure_called_at_most_once");
+	assert!(r == if ran { out(user_panics).map(Some) } else { Ok(None) }, "C11_user_panic_propagates_to_the_caller_and_nothing_else_does");
+	assert!(w().held == 0 && all_balanced(&st), "C11_every_lock_released_exactly_once_after_a_user_panic");
+	if which != 0 {
+		assert!(others_same(&st, &pre), "C11_foreign_holds_untouched");
+	}
+	let k = l.killed();
+	let mut i = 0;
+	while i < N {
+		assert!(!k[i], "C10_user_panics_never_make_a_plain_lock_unusable");
+		i += 1;
+	}
+	kani::cover!(user_panics && ran && which == 0, "panic_in_scoped_read");
+	kani::cover!(user_panics && ran && which == 1, "panic_in_scoped_try_read");
+	kani::cover!(user_panics && ran && which == 2, "panic_in_scoped_try_write");
+	kani::cover!(!ran, "try_failed");
+}
